@@ -104,6 +104,59 @@ def model_expr(case):
     return f'exec_src_out {level_coq(case["levels"][-1])} {src}'
 
 
+def same_type_columns():
+    """Outer ORDER BY / GROUP BY on a bare subquery column that is NOT an outer target while a same-typed bare column is:
+    the key must not be confused with the target (subquery columns of equal datatype are different columns)."""
+    rows = [(1, 9, 'x', 'q'), (2, 8, 'y', 'p'), (3, 7, 'x', 'p'), (4, 6, 'y', 'q'), (5, 5, 'x', 'p')]
+    t = impl.make_table('t', [('a', int), ('b', int), ('s', str), ('u', str)], rows)
+    conn = impl.connection({'t': t})
+    inner = 'SELECT a AS c0, b AS c1, s AS c2, u AS c3 FROM #t'
+    checks = [
+        (f'SELECT c0 FROM ({inner}) ORDER BY c1', [(r[0],) for r in sorted(rows, key=lambda r: r[1])]),
+        (f'SELECT c1 FROM ({inner}) ORDER BY c0 DESC', [(r[1],) for r in sorted(rows, key=lambda r: -r[0])]),
+        (f'SELECT c2 FROM ({inner}) ORDER BY c3, c0', [(r[2],) for r in sorted(rows, key=lambda r: (r[3], r[0]))]),
+        (f'SELECT c2, count(*) FROM ({inner}) GROUP BY c2, c3 ORDER BY 2 DESC, 1', None),
+        (f'SELECT * FROM (SELECT c0 FROM ({inner}) ORDER BY c1 LIMIT 2)', [(5,), (4,)]),
+    ]
+    bad = []
+    for sql, want in checks:
+        try:
+            got = conn.execute(sql).fetchall()
+        except Exception as e:  # noqa: BLE001
+            got = repr(e)
+        if want is None:
+            groups = {}
+            for r in rows:
+                groups[(r[2], r[3])] = groups.get((r[2], r[3]), 0) + 1
+            want = sorted([(k[0], n) for k, n in groups.items()], key=lambda x: (-x[1], x[0]))
+        if got != want:
+            bad.append((sql, got, want))
+    return len(checks), bad
+
+
+def nested_in_three_tables():
+    """x IN (SELECT .. FROM #u WHERE .. IN (SELECT .. FROM #v)) followed by more uses of the OUTER table's columns."""
+    t = impl.make_table('t', [('a', int), ('y', int)], [(1, 10), (2, 20), (3, 30), (4, 40)])
+    u = impl.make_table('u', [('k', int), ('g', int)], [(1, 7), (2, 8), (3, 9), (9, 7)])
+    v = impl.make_table('v', [('h', int)], [(7,), (9,)])
+    conn = impl.connection({'t': t, 'u': u, 'v': v})
+    checks = [
+        ('SELECT a, y FROM #t WHERE a IN (SELECT k FROM #u WHERE g IN (SELECT h FROM #v)) AND y > 5 ORDER BY y DESC', [(3, 30), (1, 10)]),
+        ('SELECT a IN (SELECT k FROM #u WHERE g IN (SELECT h FROM #v)), y FROM #t', [(True, 10), (False, 20), (True, 30), (False, 40)]),
+        ('SELECT y FROM #t WHERE a NOT IN (SELECT k FROM (SELECT k, g FROM #u WHERE g IN (SELECT h FROM #v))) ORDER BY y', [(20,), (40,)]),
+        ('SELECT a, y FROM #t WHERE a IN (SELECT k FROM #u WHERE g NOT IN (SELECT h FROM #v WHERE h IN (SELECT g FROM #u))) AND y >= 20', [(2, 20)]),
+    ]
+    bad = []
+    for sql, want in checks:
+        try:
+            got = conn.execute(sql).fetchall()
+        except Exception as e:  # noqa: BLE001
+            got = repr(e)
+        if got != want:
+            bad.append((sql, got, want))
+    return len(checks), bad
+
+
 # ---- IN (subquery) over a different table
 def gen_in_case(rng):
     t = rng.choice([T_INT, T_DEC, T_STR, T_DATE])
@@ -189,6 +242,11 @@ def run(tier, rng):
             violations.append(core.Violation('in-subquery', f'{c["sql"]} with #t={c["rows"]} #u={c["urows"]}: implementation {io} '
                                              f'but membership semantics (model) give {m}',
                                              {'kind': 'in', 'case': {k: v for k, v in c.items()}, 'impl': io, 'model': m}, signature=sig))
+    for fn, kind in ((same_type_columns, 'subquery-column-identity'), (nested_in_three_tables, 'nested-in')):
+        nchk, cbad = fn()
+        for sql, got, want in cbad[:2]:
+            violations.append(core.Violation(kind, f'{sql}: got {got}, expected {want}', {'kind': kind, 'sql': sql, 'got': got, 'want': want},
+                                             signature=kind + ':' + sql))
     # SELECT * FROM (q) with duplicate output names in q
     t = impl.make_table('t', [('a', int), ('b', int)], [(1, 2), (3, 4)])
     conn = impl.connection({'t': t})
